@@ -35,9 +35,12 @@ P = {
          "Fuzzy/ART1/ART2-A (exact rationals) and Hypersphere (IEEE doubles, mostly bit-identical) against the Lean "
          "definitions on trained and arbitrary weights; Ellipsoid/Gaussian/Bayesian/QuadNeuron against the published "
          "rules in numpy (1e-9); purity bitwise.",
-         "The claim 'the Python function equals the equation' is a sampled correspondence (no translator); exp/LAPACK "
-         "kernels are compared with tolerance.",
-         "Lean proof of kernel identities + kernel-level correspondence"),
+         "Translator tie for FuzzyART/ART1/ART2-A/HypersphereART: harness/artv/ktrans.py regenerates Lean definitions from "
+         "the Python AST on every run and ArtGenProofs/GenSpec.lean proves them equal to the published rules for all "
+         "arguments (17 obligations; fails closed on unsupported syntax).  Ellipsoid/Gaussian/Bayesian/QuadNeuron and the "
+         "geometry accessors are tied by sampled correspondence only; exp/LAPACK kernels compared with tolerance; the "
+         "translator itself is trusted.",
+         "Lean proof + source-to-Lean kernel translator (regenerated every run) + kernel-level correspondence"),
  "C04": ("Every denominator the kernels divide by is positive for all weights training can reach, under each class's "
          "validation and the property's guards (uses the C02 bounds); repaired 0/0 never divides; Gaussian variances "
          "stay positive.  Oracle: all 20 estimator families are fitted / incrementally fitted / asked to predict on "
@@ -154,7 +157,7 @@ def main():
     claimed = sorted(P)
     man = {
         "version": 1,
-        "setup_cmd": "cd lean && lake build ArtModel ArtProofs ArtProps artdrv",
+        "setup_cmd": "cd lean && lake build ArtModel ArtProofs ArtProps ArtGenProofs artdrv",
         "hooks": {
             "guard": "ARTLIB_VERIF",
             "enable": "no source hooks: the harness observes the public API and wraps bound methods on instances from outside; "
